@@ -417,7 +417,7 @@ impl Registrations {
             .filter(|(p, _)| p == &peer)
             .count()
             >= self.config.max_registrations_per_peer
-            || self.registrations_for_peer.len() > self.config.max_registrations_total
+            || self.registrations_for_peer.len() >= self.config.max_registrations_total
         {
             return Err(ErrorCode::Unavailable);
         }
